@@ -205,6 +205,18 @@ func markWrite(l *Loop, addr ssa.Value) {
 			path = append([]int{fa.Field}, path...)
 			cur = fa.X
 		}
+		// p := &xs[i] ... p.f = v: follow a pointer-typed local that is assigned once
+		if r := resolvePtrLocal(cur); r != nil {
+			cur = r
+			for {
+				fa, ok := cur.(*ssa.FieldAddr)
+				if !ok {
+					break
+				}
+				path = append([]int{fa.Field}, path...)
+				cur = fa.X
+			}
+		}
 		if ia, ok := cur.(*ssa.IndexAddr); ok {
 			if _, isAlloc := ia.X.(*ssa.Alloc); !isAlloc {
 				et := deref(ia.Type())
@@ -239,7 +251,11 @@ func markWrite(l *Loop, addr ssa.Value) {
 			l.HeapSorts[k] = true
 			noteWriter(l, k, a.X)
 		}
-	case *ssa.UnOp: // *p where p loaded from somewhere: unknown target
+	case *ssa.UnOp: // *p where p loaded from somewhere: unknown target, unless p is a local assigned once
+		if r := resolvePtrLocal(a); r != nil {
+			markWrite(l, r)
+			return
+		}
 		l.AllHeaps = true
 	case *ssa.FreeVar:
 		l.Cells[a] = true
@@ -409,4 +425,38 @@ func countedBy(l *Loop, iv *ssa.Alloc) bool {
 		return true
 	}
 	return false
+}
+
+// resolvePtrLocal: v is the load of a pointer-typed local that the function assigns exactly
+// once, from an element or field address; the address it holds is returned.
+func resolvePtrLocal(v ssa.Value) ssa.Value {
+	u, ok := v.(*ssa.UnOp)
+	if !ok || u.Op != token.MUL {
+		return nil
+	}
+	al, ok := u.X.(*ssa.Alloc)
+	if !ok || al.Parent() == nil {
+		return nil
+	}
+	if _, isPtr := deref(al.Type()).Underlying().(*types.Pointer); !isPtr {
+		return nil
+	}
+	var val ssa.Value
+	n := 0
+	for _, b := range al.Parent().Blocks {
+		for _, ins := range b.Instrs {
+			if st, ok := ins.(*ssa.Store); ok && st.Addr == ssa.Value(al) {
+				n++
+				val = st.Val
+			}
+		}
+	}
+	if n != 1 {
+		return nil
+	}
+	switch val.(type) {
+	case *ssa.IndexAddr, *ssa.FieldAddr:
+		return val
+	}
+	return nil
 }
